@@ -35,7 +35,42 @@ def build(case):
     # half of the programs are printed WITHOUT parameter / return annotations: values then have `Any` inside their
     # inferred types (tuples, lists, options of un-annotated parameters), which the tools must not write as hints
     src, p = printer.print_program(pr, annotate=(case["seed"] % 2 == 0))
+    if case["seed"] % 3 != 2 and force_match_shadow(pr, p):
+        src, p = printer.print_program(pr, annotate=(case["seed"] % 2 == 0))
     return pr, src, p
+
+
+def force_match_shadow(pr, p):
+    """Rename the binder of an earlier `match` arm to the name of an outer variable that a LATER arm reads (the
+    arm's own body must not read that variable): scoping of one arm must not leak into the next. Behaviour is
+    unchanged. -> True if something was renamed."""
+    spans = {id(e): (st, en) for e, st, en in p.nodes}
+    defs = [(b[0], b[2]) for b in p.binders if b[4] == "def"]
+    changed = []
+
+    def visit(n):
+        if n.get("k") != "match" or id(n) not in spans or len(changed) >= 2:
+            return
+        st, en = spans[id(n)]
+        inside = {bid for bid, at in defs if st <= at < en}
+        arms = n["arms"]
+        for i, a in enumerate(arms[:-1]):
+            if not a.get("bind") or a["bind"][0] == "_":
+                continue
+            mine = set()
+            G.walk(a["body"], lambda m: mine.add(m.get("name")) if m.get("k") == "var" else None)
+            for later in arms[i + 1:]:
+                outer = []
+                G.walk(later["body"], lambda m: outer.append(m["name"]) if m.get("k") == "var" and m.get("bid") not in inside else None)
+                outer = [w for w in outer if w not in mine and w != a["bind"][0]]
+                if outer:
+                    new, bid = outer[0], a["bind"][1]
+                    a["bind"][0] = new
+                    G.walk(a["body"], lambda m: m.__setitem__("name", new) if m.get("k") == "var" and m.get("bid") == bid else None)
+                    changed.append(new)
+                    return
+    G.walk(pr, visit)
+    return bool(changed)
 
 
 def enclosing_kinds(pr):
@@ -123,8 +158,21 @@ def run_case(case, sc):
                     G.walk(n["e"], lambda m: hit.append(1) if m.get("k") == "var" and m.get("name") == n["name"] else None)
             G.walk(c[0], f)
             return 1 if hit else 0
+        def arm_shadow(c):
+            hit = []
+
+            def f(n):
+                if n.get("k") == "match":
+                    for i, a in enumerate(n["arms"][:-1]):
+                        if a.get("bind"):
+                            for later in n["arms"][i + 1:]:
+                                G.walk(later["body"], lambda m: hit.append(1) if m.get("k") == "var" and m.get("name") == a["bind"][0]
+                                       and m.get("bid") != a["bind"][1] else None)
+            G.walk(c[0], f)
+            return 1 if hit else 0
         bare = case["seed"] % 2 == 1
         rng.shuffle(cands)
+        forced = [c for c in cands if arm_shadow(c)][:2]
         if bare:
             cands.sort(key=score, reverse=True)
             cands = cands[:3] + rng.sample(cands[3:], 2)
@@ -132,6 +180,7 @@ def run_case(case, sc):
             # favour selections that contain `let x = <expr reading the outer x>`
             cands.sort(key=self_shadow, reverse=True)
             cands = cands[:2] + rng.sample(cands[2:], 3)
+        cands = forced + [c for c in cands if not any(c[0] is f[0] for f in forced)]
     # runs of sibling statements: a whole pure block body (lets, discarded pure expressions, final value) selected at once
     runs = []
 
